@@ -15,7 +15,7 @@ pub fn parts() -> Vec<Box<dyn Part>> {
     vec![Box::new(Table)]
 }
 
-const TY_FORMS: [&str; 8] = ["D", "A", "B", "a::b::D", "D<u8>", "D::<T>", "D<'a, T>", "(i32, String)"];
+const TY_FORMS: [&str; 10] = ["D", "A", "B", "a::b::D", "D<u8>", "D::<T>", "D<'a, T>", "(i32, String)", "a::b::G<u8>", "m::L<'a, T>"];
 const ERR_FORMS: [&str; 5] = ["E", "a::E", "E<T>", "a::E<u8, T>", "std::num::ParseIntError"];
 
 /// One predicted impl header.
